@@ -6,6 +6,10 @@ set_option linter.unusedVariables false
 namespace Proofs.TEI
 open Tak Tak.TEI Spec.TEI
 
+theorem wrap64_id (v : Int) (h1 : -two63 ≤ v) (h2 : v < two63) : wrap64 v = v := by
+  unfold wrap64 two63 two64 at *
+  omega
+
 def Agrees (env : Env) (hist : List (List String)) (st : Engine) : Prop :=
   st.size = sizeTold hist ∧ st.pos = posTold env hist
 
@@ -511,7 +515,8 @@ theorem analyze_live (env : Env) (k : Nat) (st : Engine) (args : List String) (p
     analyze env k st ("go" :: args) = .ok
       { st := { mm := some st.size, pos := some p, size := st.size }
         out := [infoLine env (env.search k p (goBudget p a)), "bestmove " ++ env.fmtMove m]
-        err := false } := by
+        err := false
+        deadline := goBudget p a } := by
   unfold analyze
   simp only [hp]
   obtain ⟨hr, hsz, h3, h8⟩ := hI.pos p hp
@@ -525,8 +530,27 @@ theorem analyze_live (env : Env) (k : Nat) (st : Engine) (args : List String) (p
 
 theorem step_go (env : Env) (k : Nat) (st : Engine) (args : List String) (r : GoResult)
     (h : analyze env k st ("go" :: args) = .ok r) :
-    step env k st ("go" :: args) = .cont { out := r.out, st := r.st } := by
+    step env k st ("go" :: args) = .cont { out := r.out, st := r.st, deadline := r.deadline } := by
   simp [step, h]
+
+/-- whatever the searcher answers: on a remembered position with well-formed clock arguments `analyze`
+succeeds and the deadline it installs is `goBudget` of that position and those arguments -/
+theorem analyze_installs (env : Env) (k : Nat) (st : Engine) (args : List String) (p : Pos) (a : GoArgs)
+    (hI : Inv env st) (hp : st.pos = some p) (hargs : parseGoArgs args {} = some a) :
+    ∃ r, analyze env k st ("go" :: args) = .ok r ∧ r.deadline = goBudget p a := by
+  unfold analyze
+  simp only [hp]
+  obtain ⟨hr, hsz, h3, h8⟩ := hI.pos p hp
+  have hmmAll : ∀ s, st.mm = some s → s = st.size := hI.mm
+  have h38 : ¬ (st.size < 3 ∨ st.size > 8) := by omega
+  have hne : ¬ (st.size ≠ (p.cfg.size : Int)) := by omega
+  rcases hm : st.mm with _ | s
+  all_goals (try (have hs := hmmAll _ hm; subst hs))
+  all_goals (
+    simp only [h38, if_false, List.drop, hargs, hne]
+    cases hpv : (env.search k p (goBudget p a)).pv with
+    | nil => exact ⟨_, rfl, rfl⟩
+    | cons m rest => exact ⟨_, rfl, rfl⟩)
 
 theorem step_newgame_indep (env : Env) (k : Nat) (st st' : Engine) (args : List String) :
     step env k st ("teinewgame" :: args) = step env k st' ("teinewgame" :: args) := by
